@@ -745,3 +745,246 @@ def _diverges(e):
 def guarded_return_conditions(nb_value):
     """unused placeholder for API symmetry"""
     return []
+
+
+# ---- generic traversal with environments (P5 field summaries, call expansion) ---------------------
+
+class EnvWalker:
+    """Visit every expression of a function body with the provenance environment in force at that point."""
+
+    def __init__(self, facts, crate=None):
+        self.F = facts
+        self.NF = NF(facts)
+        self.crate = crate or facts.lib
+
+    def walk_fn(self, path, cb):
+        b = self.crate.body(path)
+        if b is None or b.get("hir") is None:
+            return
+        nb = H.norm_body(b)
+        env = Env()
+        for p in nb["params"]:
+            for i, name in H.pat_bindings(p):
+                env.m[i] = ("param", name)
+        self._w(nb["value"], env, cb, ())
+
+    def _w(self, e, env, cb, ctx):
+        if e is None:
+            return
+        if isinstance(e, list):
+            for x in e:
+                self._w(x, env, cb, ctx)
+            return
+        e = H.strip(e)
+        k = e.get("k")
+        if k is None:
+            return
+        cb(e, env, ctx)
+        N = self.NF
+        if k == "Block":
+            self._block(e["b"], env, cb, ctx)
+        elif k == "If":
+            c = H.strip(e["cond"])
+            env_t = env.child()
+            if c.get("k") == "LetExpr":
+                self._w(c["init"], env, cb, ctx)
+                base = N.nf(c["init"], env)
+                bind_pattern(c["pat"], base, env_t)
+                cond = ("islet", pat_label(c["pat"]), base)
+            else:
+                self._w(c, env, cb, ctx)
+                cond = N.nf(c, env)
+            self._w(e["then"], env_t, cb, ctx + (("alt", cond, True),))
+            if e.get("else"):
+                self._w(e["else"], env, cb, ctx + (("alt", cond, False),))
+        elif k == "Match":
+            self._w(e["scrut"], env, cb, ctx)
+            scrut = N.nf(e["scrut"], env)
+            for a in e["arms"]:
+                env_a = env.child()
+                bind_pattern(a["pat"], scrut, env_a)
+                if a.get("guard"):
+                    self._w(a["guard"], env_a, cb, ctx)
+                self._w(a["body"], env_a, cb, ctx + (("alt", ("islet", pat_label(a["pat"]), scrut), True),))
+        elif k == "For":
+            self._w(e["iter"], env, cb, ctx)
+            it = N.nf(e["iter"], env)
+            env_b = env.child()
+            bind_pattern(e["pat"], ("elem", it), env_b)
+            self._w(e["body"], env_b, cb, ctx + (("star", it),))
+        elif k == "Loop":
+            self._block(e["body"], env, cb, ctx + (("star", ("unknown", "loop")),))
+        elif k == "MethodCall":
+            self._w(e["recv"], env, cb, ctx)
+            recv = N.nf(e["recv"], env)
+            for a in e["args"]:
+                a2 = H.strip(a)
+                if a2.get("k") == "Closure":
+                    self._closure(a2, e, recv, env, cb, ctx)
+                else:
+                    self._w(a, env, cb, ctx)
+        elif k == "Call":
+            self._w(e["f"], env, cb, ctx)
+            for a in e["args"]:
+                a2 = H.strip(a)
+                if a2.get("k") == "Closure":
+                    self._closure(a2, e, ("unknown", "call-arg"), env, cb, ctx)
+                else:
+                    self._w(a, env, cb, ctx)
+        elif k == "Closure":
+            self._closure(e, None, ("unknown", "closure"), env, cb, ctx)
+        elif k == "Struct":
+            for f in e["fields"]:
+                self._w(f["e"], env, cb, ctx)
+            if isinstance(e.get("base"), dict):
+                self._w(e["base"], env, cb, ctx)
+        elif k in ("Format",):
+            for h in e["fa"]["holes"]:
+                self._w(h["arg"], env, cb, ctx)
+        elif k == "FormatArgs":
+            for h in e["holes"]:
+                self._w(h["arg"], env, cb, ctx)
+        else:
+            for key in ("e", "a", "b", "es", "init"):
+                if key in e and isinstance(e[key], (dict, list)):
+                    self._w(e[key], env, cb, ctx)
+
+    def _closure(self, clo, call, recv, env, cb, ctx):
+        body = clo["body"]
+        env2 = env.child()
+        name = call.get("name") if call and call.get("k") == "MethodCall" else None
+        is_iter = call is not None and ("Iterator" in (call.get("path") or "") or name in ("for_each", "filter_map"))
+        if name in ("map", "and_then", "is_some_and", "filter", "find", "any", "position", "for_each", "filter_map", "map_or",
+                    "inspect", "all", "find_map", "flat_map", "try_for_each", "retain"):
+            arg = ("elem", recv) if is_iter else ("payload", "Some", recv)
+            for pat in body["params"]:
+                bind_pattern(pat, arg, env2)
+        else:
+            for pat in body["params"]:
+                for i, nm in H.pat_bindings(pat):
+                    env2.m[i] = ("local", nm)
+        self._w(body["value"], env2, cb, ctx + ((("star", recv),) if is_iter else ()))
+
+    def _block(self, b, env, cb, ctx):
+        env2 = env.child()
+        cur = ctx
+        stmts = b["stmts"]
+        for i, s in enumerate(stmts):
+            sk = s.get("k")
+            if sk == "Let":
+                if s.get("init") is not None:
+                    self._w(s["init"], env2, cb, cur)
+                rest = stmts[i + 1:] + ([{"k": "Expr", "e": b["tail"]}] if b.get("tail") else [])
+                self.NF.bind_let(s, env2, rest)
+                if s.get("els") is not None:
+                    self._block(s["els"], env2, cb, cur)
+                    base = self.NF.nf(s["init"], env2)
+                    cur = cur + (("alt", ("islet", pat_label(s["pat"]), base), True),)
+            elif sk in ("Semi", "Expr"):
+                e = H.strip(s["e"])
+                self._w(e, env2, cb, cur)
+                if e.get("k") == "If" and not e.get("else") and _diverges(e["then"]):
+                    c = H.strip(e["cond"])
+                    if c.get("k") == "LetExpr":
+                        cond = ("islet", pat_label(c["pat"]), self.NF.nf(c["init"], env2))
+                    else:
+                        cond = self.NF.nf(c, env2)
+                    cur = cur + (("alt", cond, False),)
+        if b.get("tail"):
+            self._w(b["tail"], env2, cb, cur)
+
+
+def field_summaries(F, struct_suffix):
+    """All construction sites `S { f: e, .. }` of struct S (path ends with struct_suffix) in non-test lib code:
+    [(fn, site, ctx, {field: nf}, base_nf_or_None)]"""
+    out = []
+    W = EnvWalker(F)
+    for b in F.lib.bodies:
+        if b.get("closure") or b.get("hir") is None or "yaserde_tests" in b["path"]:
+            continue
+        fn = b["path"]
+
+        def cb(e, env, ctx, fn=fn):
+            if e.get("k") == "Struct" and (e["path"].get("path") or "").endswith(struct_suffix):
+                fields = {f["name"]: W.NF.nf(f["e"], env) for f in e["fields"]}
+                base = e.get("base")
+                out.append((fn, H.sp(e), ctx, fields, W.NF.nf(base, env) if isinstance(base, dict) else base))
+        try:
+            W.walk_fn(fn, cb)
+        except Unrecognised:
+            continue
+    return out
+
+
+SANITISERS = ("to_pascal_case", "to_snake_case", "rename_keywords", "to_lowercase", "to_camel_case", "to_class_case",
+              "escape_default", "escape_debug")
+
+
+class CallExpander:
+    """Expand calls to small local non-writer functions inside normal forms (e.g. xml_name_to_rust_name, as_field_name,
+    create_mod_name_for_namespace) so that sanitiser chains become visible."""
+
+    def __init__(self, F):
+        self.F = F
+        self.NF = NF(F)
+        self.cache = {}
+
+    def summary(self, path):
+        if path in self.cache:
+            return self.cache[path]
+        self.cache[path] = None
+        b = self.F.lib.body(path)
+        if b is None or b.get("hir") is None or b.get("closure"):
+            return None
+        try:
+            nb = H.norm_body(b)
+        except Unrecognised:
+            return None
+        env = Env()
+        names = []
+        for p in nb["params"]:
+            for i, name in H.pat_bindings(p):
+                env.m[i] = ("param", name)
+                names.append(name)
+        # only straight-line bodies (no loops / early returns)
+        for x in H.exprs(nb["value"]):
+            if x.get("k") in ("For", "Loop", "Ret", "Try", "Match"):
+                return None
+        v = self.NF.nf(nb["value"], env)
+        if any(r[0] in ("unknown", "local") for r in nf_roots(v)):
+            return None
+        self.cache[path] = (names, v)
+        return self.cache[path]
+
+    def expand(self, n, depth=0):
+        if not isinstance(n, tuple) or depth > 6:
+            return n
+        if n[0] == "call" and isinstance(n[1], str):
+            args = tuple(self.expand(a, depth) for a in n[2])
+            s = self.summary(n[1])
+            if s is not None and len(s[0]) == len(args):
+                return self.expand(nf_subst(s[1], dict(zip(s[0], args))), depth + 1)
+            return ("call", n[1], args)
+        if n[0] == "format":
+            return ("format", tuple((p if p[0] == "lit" else ("hole", self.expand(p[1], depth)) + tuple(p[2:])) for p in n[1]))
+        if n[0] == "match":
+            return ("match", self.expand(n[1], depth), tuple((p, self.expand(v, depth)) for p, v in n[2]))
+        if n[0] == "tuple":
+            return ("tuple", tuple(self.expand(a, depth) for a in n[1]))
+        if n[0] == "list":
+            return ("list", tuple(tuple([x[0]] + [self.expand(y, depth) for y in x[1:]]) for x in n[1]))
+        return tuple(self.expand(x, depth) if isinstance(x, tuple) else x for x in n)
+
+
+def sanitiser_chain(n):
+    """(chain, root): sanitiser functions applied around the root, outermost first."""
+    chain = []
+    cur = n
+    while isinstance(cur, tuple) and cur[0] == "call" and isinstance(cur[1], str) and cur[2]:
+        name = cur[1].rsplit("::", 1)[-1]
+        if name in SANITISERS:
+            chain.append(name)
+            cur = cur[2][0]
+            continue
+        break
+    return chain, cur
